@@ -291,6 +291,8 @@ worker(int slot, int resume)
 		if (SH->done) break;
 		it = W->stack[--W->sp];
 		exec_reset(&it);
+		/* keep only the current execution's stderr (library warnings would otherwise bury a crash report) */
+		if (errfd >= 0 && !CFG->fork_mode) { if (ftruncate(errfd, 0)) {} lseek(errfd, 0, SEEK_SET); }
 		if (CFG->fork_mode) run_forked(slot); else run_inproc();
 		l_execs++; l_points += (uint64_t)W->tr_n; if ((uint64_t)W->tr_n > l_maxdepth) l_maxdepth = (uint64_t)W->tr_n;
 		if (W->tr_n < it.len && !W->pruned && !W->cut && !W->failed) vf_engine_error("execution ended after %d choice points but its prefix has %d", W->tr_n, it.len);
